@@ -77,6 +77,7 @@ class SchedObs:
         am.RepositoryMirror.download_release_files = drf
         am.RepositoryMirror.mirror = mirror
         Downloader.download_file = df
+        self._mine = {"drf": drf, "mirror": mirror, "df": df}
 
         def on_event(ev):
             if ev[0] in ("start", "end"):
@@ -90,9 +91,16 @@ class SchedObs:
         return sorted(self.repo_index, key=len, reverse=True)
 
     def uninstall(self):
-        am.RepositoryMirror.download_release_files = self._orig["drf"]
-        am.RepositoryMirror.mirror = self._orig["mirror"]
-        Downloader.download_file = self._orig["df"]
+        # only what is still ours: the runner's own observation wrappers, installed before these and removed before this call,
+        # have already put the original methods back - restoring "our" originals would re-install the runner's stale wrappers,
+        # one level deeper per scenario (RecursionError after some 480 scenarios of a thorough run)
+        mine = getattr(self, "_mine", {})
+        if am.RepositoryMirror.download_release_files is mine.get("drf"):
+            am.RepositoryMirror.download_release_files = self._orig["drf"]
+        if am.RepositoryMirror.mirror is mine.get("mirror"):
+            am.RepositoryMirror.mirror = self._orig["mirror"]
+        if Downloader.download_file is mine.get("df"):
+            Downloader.download_file = self._orig["df"]
 
 
 def to_model_events(events, nrepos):
